@@ -86,7 +86,15 @@ else:
     # 1. existing tests of the touched crates
     if "--skip-tests" not in flags:
         for p in pkgs:
-            cmd = f"cargo test -p {p} --offline --no-fail-fast"
+            # heavy crates: the full suite takes the better part of an hour on the shared machine;
+            # run the unit tests plus the integration tests the agent recorded, and rely on the
+            # agent's own record (meta.existing_tests_run) for the rest
+            heavy = p in ("dfir_rs", "hydro_lang", "hydro_test", "hydro_std")
+            cmd = f"cargo test -p {p} --offline --no-fail-fast" + (" --lib" if heavy else "")
+            if heavy:
+                extra = sorted(set(re.findall(r"--test\s+([\w]+)", " ".join(meta.get("existing_tests_run", [])))))
+                extra = [t for t in extra if os.path.exists(f"{repo}/{p}/tests/{t}.rs")][:8]
+                cmd += "".join(f" --test {t}" for t in extra)
             rc, out, secs = sh(cmd, cwd=repo)
             ok = rc == 0
             conf["ran"].append({"cmd": cmd, "with_patch": True, "ok": ok, "secs": round(secs), "tail": out[-600:] if not ok else ""})
@@ -185,6 +193,14 @@ else:
     sh("git checkout -- . && git clean -fdq -e target", cwd=repo)
 
 dst = f"{V}/seeded/{name}"
+if "--skip-tests" in flags and os.path.exists(f"{dst}/meta.json"):
+    try:
+        prev = json.load(open(f"{dst}/meta.json")).get("confirmation", {})
+        if prev.get("ran") and not conf.get("ran"):
+            conf["ran"] = prev["ran"]
+            conf["ran_note"] = f"existing-test results carried over from the evaluation at repo head {prev.get('repo_head')}"
+    except Exception:
+        pass
 shutil.rmtree(dst, ignore_errors=True)
 os.makedirs(dst)
 shutil.copy(patch, f"{dst}/patch.diff")
